@@ -14,9 +14,15 @@ import (
 	"encoding/json"
 	"fmt"
 	"hash/fnv"
+	"io"
 	"math/rand"
+	"os"
+	"os/exec"
 	"sort"
+	"strconv"
 	"strings"
+	"sync"
+	"sync/atomic"
 
 	gmsl "github.com/matrix-org/gomatrixserverlib"
 )
@@ -84,7 +90,33 @@ func init() {
 		return replayAll(a, func(i int, raw json.RawMessage) Result { return c10Replay(i, raw, int(a.seed)) })
 	})
 	register("c11", "order independence / well-formedness / topological orderings on Room_gen.tla queries", func(a *args) error {
-		return replayAll(a, func(i int, raw json.RawMessage) Result { return c11Replay(i, raw, int(a.seed)) })
+		// "the same on every run of the process": a second process resolves the batch in the opposite order (what it
+		// has resolved before a given query is what this process resolves after it); the results must coincide
+		other, err := c11OtherProcess(a)
+		if err != nil {
+			return err
+		}
+		// this process resolves the first query of every version with sender-chosen IDs before anything else
+		if recs, err := readRecords(a.in); err == nil {
+			for _, i := range c11FirstOfVersion(recs) {
+				raw := recs[i]
+				safely(i, func() Result {
+					var q resQuery
+					if json.Unmarshal(raw, &q) == nil {
+						m := materialise(&q)
+						auth := c11AuthOf(m)
+						for _, entry := range c11Entries(algoOf(q.Ver)) {
+							c11Resolve(m, entry, q.Sets, auth)
+						}
+					}
+					return Result{OK: true}
+				})
+			}
+		}
+		return replayAll(a, func(i int, raw json.RawMessage) Result { return c11Replay(i, raw, int(a.seed), other) })
+	})
+	register("c11hist", "(internal) resolve the queries of a batch in reverse order, one result line per query and entry point", func(a *args) error {
+		return c11History(a)
 	})
 }
 
@@ -97,6 +129,40 @@ type roomM struct {
 	pdus  map[int]gmsl.PDU
 	byID  map[string]int
 	types map[int]string
+}
+
+// digest identifies the event by its fields and the (already assigned) IDs of the events it references.
+func (m *roomM) digest(e roomEvent) string {
+	var us []string
+	for u, r := range e.PLU {
+		us = append(us, fmt.Sprintf("%s=%d", u, r))
+	}
+	sort.Strings(us)
+	ref := func(xs []int) []string {
+		var out []string
+		for _, x := range xs {
+			if id, ok := m.ids[x]; ok {
+				out = append(out, id)
+			} else {
+				out = append(out, fmt.Sprint(x))
+			}
+		}
+		sort.Strings(out)
+		return out
+	}
+	addl := append([]string(nil), e.Addl...)
+	sort.Strings(addl)
+	h := sha1.Sum([]byte(fmt.Sprint(m.q.Ver, "|", e.Type, "|", e.Sender, "|", e.SKey, "|", e.Membership, "|", us, "|", e.pud(), "|", e.JR,
+		"|", e.Depth, "|", e.TS, "|", addl, "|", ref(e.Prev), "|", ref(e.Auth))))
+	return fmt.Sprintf("%x", h[:12])
+}
+
+// stateKeyOf is the concrete state key of a non-member event: "" or, for the model's "x", a key that is no user ID.
+func stateKeyOf(e roomEvent) string {
+	if e.SKey == "" {
+		return ""
+	}
+	return "archive"
 }
 
 // sha1IDs returns n event IDs whose SHA-1 order realises the given ranks (v1 tie-break).
@@ -122,25 +188,42 @@ func sha1IDs(q *resQuery) map[int]string {
 }
 
 func materialise(q *resQuery) *roomM {
+	m := assignIDs(q)
+	m.build()
+	return m
+}
+
+// assignIDs chooses the event IDs of a query (no event is built yet).
+func assignIDs(q *resQuery) *roomM {
 	m := &roomM{q: q, ids: map[int]string{}, pdus: map[int]gmsl.PDU{}, byID: map[string]int{}, types: map[int]string{}}
 	ver := q.Ver
 	var v1ids map[int]string
 	if ver == "1" {
 		v1ids = sha1IDs(q)
 	}
+	// Event IDs.  Room versions 1 and 2: the sender chooses the ID, so different events may carry one ID; the IDs
+	// are derived from the model's event number / rank only, and the queries of one batch deliberately reuse them
+	// for different events (event 7 of one room and of the next are different power-levels events under one ID):
+	// whatever a resolver remembers about an ID from an earlier call must not leak into the next.  Room versions
+	// 3+: the ID is a hash of the event, two different events never share one; the IDs are the rank (which fixes
+	// the lexicographic order) followed by a digest of the event's fields and of the IDs it references.
 	for _, e := range q.Events {
 		switch {
 		case ver == "1":
 			m.ids[e.ID] = v1ids[e.ID]
-		case isDomainless(ver):
-			m.ids[e.ID] = eventID43(fmt.Sprintf("e%03d", e.IDR))
 		case isFormatV1(ver):
 			m.ids[e.ID] = fmt.Sprintf("$e%03d:hs1", e.IDR)
 		default:
-			m.ids[e.ID] = eventID43(fmt.Sprintf("e%03d", e.IDR))
+			m.ids[e.ID] = eventID43(fmt.Sprintf("e%03d_%s", e.IDR, m.digest(e)))
 		}
 		m.byID[m.ids[e.ID]] = e.ID
 	}
+	return m
+}
+
+// build builds the real events of the query under the assigned IDs.
+func (m *roomM) build() {
+	q, ver := m.q, m.q.Ver
 	room := "!room:hs1"
 	createID := ""
 	for _, e := range q.Events {
@@ -186,10 +269,10 @@ func materialise(q *resQuery) *roomM {
 			es.Type, es.StateKey = "m.room.member", strp(userIDs[e.SKey])
 			es.Content = map[string]interface{}{"membership": e.Membership}
 		case "pl":
-			es.Type, es.StateKey = "m.room.power_levels", strp("")
+			es.Type, es.StateKey = "m.room.power_levels", strp(stateKeyOf(e))
 			es.Content = e.plContent()
 		case "jr":
-			es.Type, es.StateKey = "m.room.join_rules", strp("")
+			es.Type, es.StateKey = "m.room.join_rules", strp(stateKeyOf(e))
 			es.Content = map[string]interface{}{"join_rule": e.JR}
 		default:
 			es.Type, es.StateKey = "m.room.topic", strp("")
@@ -198,7 +281,6 @@ func materialise(q *resQuery) *roomM {
 		m.pdus[e.ID] = es.mustBuild()
 		m.types[e.ID] = e.Type
 	}
-	return m
 }
 
 func (m *roomM) list(ids []int) []gmsl.PDU {
@@ -310,8 +392,9 @@ func (m *roomM) v1AuthEvents() []int {
 			continue
 		}
 		for i := range ids {
-			switch m.types[i] {
-			case "create", "pl", "jr", "member":
+			// the events the auth rules read: members and the room's create / power levels / join rules (empty state key)
+			switch {
+			case m.types[i] == "member", (m.types[i] == "create" || m.types[i] == "pl" || m.types[i] == "jr") && byID[i].SKey == "":
 				out = append(out, i)
 			}
 		}
@@ -327,6 +410,9 @@ func (m *roomM) describe() string {
 			continue
 		}
 		s := fmt.Sprintf("%d:%s(%s", e.ID, e.Type, e.Sender)
+		if e.Type != "member" && e.SKey != "" {
+			s = fmt.Sprintf("%d:%s[state_key %q](%s", e.ID, e.Type, stateKeyOf(e), e.Sender)
+		}
 		if e.Type == "member" {
 			s += "->" + e.SKey + " " + e.Membership
 		}
@@ -402,6 +488,9 @@ func (m *roomM) shapeKey() string {
 		}
 		e := byID[i]
 		s := e.Type
+		if e.Type != "member" && e.SKey != "" {
+			s += "@key"
+		}
 		if e.Type == "member" {
 			if e.Sender == e.SKey {
 				s += ":self-" + e.Membership
@@ -506,7 +595,244 @@ func shuffled[T any](r *rand.Rand, xs []T) []T {
 	return out
 }
 
-func c11Replay(i int, raw json.RawMessage, seed int) Result {
+// c11Entries are the entry points a query is run through.
+func c11Entries(algo gmsl.StateResAlgorithm) []string {
+	entries := []string{"ResolveConflictsNew", "ResolveConflicts(deprecated)"}
+	if algo != gmsl.StateResV1 {
+		return append(entries, "ResolveStateConflictsV2New", "ResolveStateConflictsV2(deprecated)")
+	}
+	return append(entries, "ResolveStateConflicts")
+}
+
+// c11Resolve runs one entry point on the query as given (state sets and auth events in the record's order).
+func c11Resolve(m *roomM, entry string, sets [][]int, auth []int) []int {
+	q := m.q
+	algo := algoOf(q.Ver)
+	byID := map[int]roomEvent{}
+	for _, e := range q.Events {
+		byID[e.ID] = e
+	}
+	keyOf := func(id int) string { return byID[id].Type + "\x00" + byID[id].SKey }
+	var psets [][]gmsl.PDU
+	var union []int
+	for _, s := range sets {
+		psets = append(psets, m.list(s))
+		union = append(union, s...)
+	}
+	uniq := unionInts(union)
+	perKey := map[string][]int{}
+	for _, x := range uniq {
+		perKey[keyOf(x)] = append(perKey[keyOf(x)], x)
+	}
+	var conflicted, unconflicted []int
+	for _, x := range uniq {
+		if len(perKey[keyOf(x)]) > 1 {
+			conflicted = append(conflicted, x)
+		} else {
+			unconflicted = append(unconflicted, x)
+		}
+	}
+	var got []gmsl.PDU
+	switch entry {
+	case "ResolveConflictsNew":
+		r, err := gmsl.ResolveConflictsNew(gmsl.RoomVersion(q.Ver), psets, m.list(auth), identityQuerier, m.rejectedFn())
+		if err != nil {
+			panic(err)
+		}
+		got = r
+	case "ResolveStateConflictsV2New":
+		got = gmsl.ResolveStateConflictsV2New(algo, psets, m.list(auth), identityQuerier, m.rejectedFn())
+	case "ResolveConflicts(deprecated)":
+		r, err := gmsl.ResolveConflicts(gmsl.RoomVersion(q.Ver), m.list(union), m.list(auth), identityQuerier, m.rejectedFn())
+		if err != nil {
+			panic(err)
+		}
+		got = r
+	case "ResolveStateConflictsV2(deprecated)":
+		got = gmsl.ResolveStateConflictsV2(m.list(conflicted), m.list(unconflicted), m.list(auth), identityQuerier, m.rejectedFn())
+	case "ResolveStateConflicts":
+		got = append(gmsl.ResolveStateConflicts(m.list(conflicted), m.list(auth), identityQuerier), m.list(unconflicted)...)
+	}
+	return m.idsOf(got)
+}
+
+// c11AuthOf is the auth-event list a query is presented with.
+func c11AuthOf(m *roomM) []int {
+	var all []int
+	for _, s := range m.q.Sets {
+		all = unionInts(all, s)
+	}
+	if algoOf(m.q.Ver) == gmsl.StateResV1 {
+		return m.v1AuthEvents()
+	}
+	return unionInts(m.authChain(all), all)
+}
+
+// c11History (the second process): the queries of the batch from the last to the first, every entry point once.
+func c11History(a *args) error {
+	recs, err := readRecords(a.in)
+	if err != nil {
+		return err
+	}
+	tw, err := newTraceWriter(a.out)
+	if err != nil {
+		return err
+	}
+	// Room versions with sender-chosen event IDs (the batch reuses IDs for different events): the first process has
+	// resolved the first query of the version before all others (c11FirstOfVersion); this process begins with the
+	// queries that give the most of those IDs another content and goes through them one at a time.  All other
+	// queries: from the last to the first.
+	reused, rest := c11HistoryOrder(recs)
+	one := func(i int) {
+		out := map[string][]int{}
+		func() {
+			defer func() { recover() }() // a panic is reported by the first process, with its own key
+			var q resQuery
+			if json.Unmarshal(recs[i], &q) != nil {
+				return
+			}
+			m := materialise(&q)
+			auth := c11AuthOf(m)
+			for _, entry := range c11Entries(algoOf(q.Ver)) {
+				out[entry] = c11Resolve(m, entry, q.Sets, auth)
+			}
+		}()
+		tw.emit(map[string]interface{}{"i": i, "r": out})
+	}
+	// (the head of that order one query at a time - what a process resolves first is what matters most -, the
+	// remainder and the other versions in parallel)
+	head := min(len(reused), 48)
+	for _, i := range reused[:head] {
+		one(i)
+	}
+	for k := len(reused) - 1; k >= head; k-- {
+		rest = append(rest, reused[k]) // taken from the end of rest: in the order of reused
+	}
+	par := max(1, a.par)
+	var wg sync.WaitGroup
+	next := int64(len(rest))
+	for w := 0; w < par; w++ {
+		wg.Add(1)
+		go func() {
+			defer wg.Done()
+			for {
+				k := int(atomic.AddInt64(&next, -1))
+				if k < 0 {
+					return
+				}
+				one(rest[k])
+			}
+		}()
+	}
+	wg.Wait()
+	return tw.close()
+}
+
+// eventSig is the content of a model event without its references.
+func eventSig(q *resQuery, e roomEvent) string {
+	var us []string
+	for u, r := range e.PLU {
+		us = append(us, fmt.Sprintf("%s=%d", u, r))
+	}
+	sort.Strings(us)
+	return fmt.Sprint(e.Type, "|", e.Sender, "|", e.SKey, "|", e.Membership, "|", us, "|", e.pud(), "|", e.JR, "|", e.TS, "|", e.Depth)
+}
+
+// c11FirstOfVersion: per room version with sender-chosen event IDs, the index of its first query in the batch.
+func c11FirstOfVersion(recs []json.RawMessage) map[string]int {
+	first := map[string]int{}
+	for i, raw := range recs {
+		var q struct {
+			Ver string `json:"ver"`
+		}
+		if json.Unmarshal(raw, &q) == nil && isFormatV1(q.Ver) {
+			if _, ok := first[q.Ver]; !ok {
+				first[q.Ver] = i
+			}
+		}
+	}
+	return first
+}
+
+// c11HistoryOrder: the order in which the second process resolves the batch (see c11History).
+func c11HistoryOrder(recs []json.RawMessage) (reused []int, rest []int) {
+	first := c11FirstOfVersion(recs)
+	ref := map[string]map[string]string{} // version -> event ID -> content in the version's first query
+	sigs := func(raw json.RawMessage) (string, map[string]string) {
+		var q resQuery
+		if json.Unmarshal(raw, &q) != nil {
+			return "", nil
+		}
+		if !isFormatV1(q.Ver) {
+			return q.Ver, nil
+		}
+		m := assignIDs(&q)
+		out := map[string]string{}
+		for _, e := range q.Events {
+			out[m.ids[e.ID]] = eventSig(&q, e)
+		}
+		return q.Ver, out
+	}
+	for ver, i := range first {
+		_, ref[ver] = sigs(recs[i])
+	}
+	differing := map[int]int{}
+	for i, raw := range recs {
+		ver, sg := sigs(raw)
+		if sg == nil {
+			rest = append(rest, i)
+			continue
+		}
+		reused = append(reused, i)
+		for id, c := range sg {
+			if c0, ok := ref[ver][id]; ok && c0 != c {
+				differing[i]++
+			}
+		}
+	}
+	sort.SliceStable(reused, func(a, b int) bool { return differing[reused[a]] > differing[reused[b]] })
+	return reused, rest
+}
+
+// c11OtherProcess runs c11hist on the same batch in a child process and returns its results per record.
+func c11OtherProcess(a *args) (map[int]map[string][]int, error) {
+	f, err := os.CreateTemp("", "c11hist_*.ndjson")
+	if err != nil {
+		return nil, err
+	}
+	f.Close()
+	defer os.Remove(f.Name())
+	cmd := exec.Command(os.Args[0], "c11hist", "-in", a.in, "-out", f.Name(), "-seed", fmt.Sprint(a.seed))
+	cmd.Stdout = io.Discard // the library prints diagnostics of its own to stdout
+	cmd.Stderr = os.Stderr
+	if err := cmd.Run(); err != nil {
+		return nil, fmt.Errorf("second process (c11hist): %w", err)
+	}
+	lines, err := readRecords(f.Name())
+	if err != nil {
+		return nil, err
+	}
+	out := map[int]map[string][]int{}
+	for _, l := range lines {
+		var r struct {
+			I int              `json:"i"`
+			R map[string][]int `json:"r"`
+		}
+		if err := json.Unmarshal(l, &r); err != nil {
+			return nil, err
+		}
+		out[r.I] = r.R
+	}
+	return out, nil
+}
+
+func c11Replay(i int, raw json.RawMessage, seed int, other map[int]map[string][]int) Result {
+	// position of the record in the file the second process read (a record re-executed alone is told its
+	// position in the original batch through VERIF_INDEX_BASE)
+	recIndex := i
+	if v, err := strconv.Atoi(os.Getenv("VERIF_INDEX_BASE")); err == nil {
+		recIndex = i - v
+	}
 	var q resQuery
 	if err := json.Unmarshal(raw, &q); err != nil {
 		panic(err)
@@ -605,13 +931,7 @@ func c11Replay(i int, raw json.RawMessage, seed int) Result {
 		}
 		return vs
 	}
-	entries := []string{"ResolveConflictsNew", "ResolveConflicts(deprecated)"}
-	if algo != gmsl.StateResV1 {
-		entries = append(entries, "ResolveStateConflictsV2New", "ResolveStateConflictsV2(deprecated)")
-	} else {
-		entries = append(entries, "ResolveStateConflicts")
-	}
-	for _, entry := range entries {
+	for _, entry := range c11Entries(algo) {
 		var ref []int
 		for k, v := range mkVariants() {
 			var sets [][]gmsl.PDU
@@ -664,6 +984,10 @@ func c11Replay(i int, raw json.RawMessage, seed int) Result {
 			} else if !sameInts(g, ref) {
 				return fail(entry, v.name, ref, g, fmt.Sprintf("result %v under variant %q differs from the baseline result %v", g, v.name, ref))
 			}
+		}
+		// ... and on every run of the process: a second process that resolved the batch in the opposite order
+		if o, ok := other[recIndex][entry]; ok && !sameInts(o, ref) {
+			return fail(entry, "other-process-history", ref, o, fmt.Sprintf("this process returns %v, a second process that resolved the other queries of the batch before this one returns %v: the result depends on what the process resolved earlier", ref, o))
 		}
 	}
 	// orderings: every ordering returned for this acyclic event set is a permutation of the distinct inputs in
